@@ -477,6 +477,50 @@ fn kernel_case(src: &mut Src, ctx: &mut RunCtx) -> RunResult {
             ctx.count("iir_feedback_after_clamp");
         }
     }
+    // Hilbert tap design for every window type: zero at even offsets from the
+    // centre, and at odd offset i the tap is ±c/i times the window value *at
+    // that tap* (one constant c for the whole filter).
+    if src.chance(1, 4) {
+        use rustradio::window::WindowType;
+        let wt = match src.below(4) {
+            0 => WindowType::Blackman,
+            1 => WindowType::BlackmanHarris,
+            2 => WindowType::HammingParm(0.5),
+            _ => WindowType::Hamming,
+        };
+        let n = 2 * src.range(1, 40) + 1;
+        let w = wt.make_window(n);
+        let t = match crate::engine::catch(|| rustradio::fir::hilbert(&w)) {
+            Ok(t) => t,
+            Err(p) => return ctx.tolerate(Violation::new(format!("C11:hilbert-design-panic:{}", p.site()), format!("fir::hilbert with {n} taps panicked: {}", p.msg))),
+        };
+        ctx.count("hilbert_design_checked");
+        let mid = (n - 1) / 2;
+        let mut c: Option<f64> = None;
+        for i in 1..=mid {
+            for (idx, sign) in [(mid + i, 1.0f64), (mid - i, -1.0)] {
+                if i % 2 == 0 {
+                    if t[idx] != 0.0 {
+                        return ctx.tolerate(Violation::new("C11:hilbert-design", format!("fir::hilbert, {n} taps: tap at even offset {i} from the centre is {}", t[idx])));
+                    }
+                    continue;
+                }
+                let wv = w.0[idx] as f64;
+                if wv.abs() < 1e-4 {
+                    continue;
+                }
+                let k = sign * t[idx] as f64 * i as f64 / wv;
+                match c {
+                    None => c = Some(k),
+                    Some(c0) => {
+                        if (k - c0).abs() > 1e-3 * c0.abs().max(1e-6) {
+                            return ctx.tolerate(Violation::new("C11:hilbert-design", format!("fir::hilbert, {n} taps: tap {idx} (offset {}{i}) is {} = {k:.6} x window/offset, the other taps give {c0:.6}", if sign > 0.0 { "+" } else { "-" }, t[idx])));
+                        }
+                    }
+                }
+            }
+        }
+    }
     // Tap design: symmetric, unit DC gain (Hamming windows are symmetric here).
     if src.chance(1, 4) {
         let sr = *src.pick(&[8000.0f32, 44100.0, 48000.0, 50000.0]);
